@@ -69,6 +69,8 @@ func runC20(c *Ctx, w *World, r *Report) {
 	}
 	r.OK("R-ANCHOR", "size.Of->"+w.FuncName(sizeof), w.Pos(sizeof.Pos()), "sizing function resolved through Of's call graph: "+w.FuncName(sizeof))
 	recv := ssa.Value(sizeof.Params[0])
+	// the generic rules of every anchored function (stateless, no goroutines, widths, panic sites, allocations)
+	requireFuncs(w, r, "size.Of", "size.Stat", w.FuncName(sizeof))
 	// R-ADDITIVE: the size of a value is a function of that value alone
 	r.Rule("R-ADDITIVE", "the recursive sizing function is effect-free (E1): it writes no memory reachable from its parameters or from package-level variables, so the size of a part does not depend on what was visited before (a memo / visited set carried through the recursion makes shared sub-values count once: additivity is lost)")
 	{
@@ -572,6 +574,81 @@ func runC20(c *Ctx, w *World, r *Report) {
 					if !okN {
 						miss = append(miss, fmt.Sprintf("loop bound equal to v.%s() (found %s) at %s", counter, iv.N, w.InstrPos(rc)))
 					}
+				}
+			}
+		}
+		// no bypass: within the specialisation every path to a return passes the head of the enumeration loop (an empty
+		// container passes it too), except on an edge that is only taken when the part count is zero
+		if len(miss) == 0 && (kn == "Slice" || kn == "Array" || kn == "Struct" || kn == "Map") {
+			fa := w.FA(sizeof)
+			heads := map[*ssa.BasicBlock]bool{}
+			for _, rc := range recCalls {
+				if idx := recursionIndex(rc); idx != nil {
+					if iv, ok := fa.InductionOf(idx, rc.Block()); ok && iv.Phi != nil {
+						heads[iv.Phi.Block()] = true
+					}
+				}
+			}
+			var counters []ssa.Value
+			for _, b := range sizeof.Blocks {
+				if !slice[b] {
+					continue
+				}
+				for _, ins := range b.Instrs {
+					call, ok := ins.(*ssa.Call)
+					if !ok {
+						continue
+					}
+					if f := call.Common().StaticCallee(); f != nil {
+						if f.Name() == "Next" && strings.HasPrefix(funcFullName(f), "(*reflect.MapIter).") {
+							heads[b] = true
+						}
+						if (f.Name() == "Len" || f.Name() == "NumField") && strings.HasPrefix(funcFullName(f), "(reflect.Value).") && len(call.Common().Args) > 0 && call.Common().Args[0] == recv {
+							counters = append(counters, call)
+						}
+					}
+				}
+			}
+			if len(heads) > 0 {
+				seen := map[*ssa.BasicBlock]bool{}
+				st := []*ssa.BasicBlock{sizeof.Blocks[0]}
+				seen[sizeof.Blocks[0]] = true
+				for len(st) > 0 && len(miss) == 0 {
+					b := st[len(st)-1]
+					st = st[:len(st)-1]
+					if _, isRet := b.Instrs[len(b.Instrs)-1].(*ssa.Return); isRet {
+						miss = append(miss, fmt.Sprintf("the enumeration of every part on every path: the return at %s is reached without passing the loop over the parts (a fast path or shortcut that sizes this %s some other way); only an edge taken when the part count is 0 may bypass it", w.InstrPos(b.Instrs[len(b.Instrs)-1]), strings.ToLower(kn)))
+						break
+					}
+					succs := b.Succs
+					if ifi, ok := b.Instrs[len(b.Instrs)-1].(*ssa.If); ok && len(b.Succs) == 2 {
+						if val, known := evalKindCond(ifi.Cond, recv, k); known {
+							if val {
+								succs = b.Succs[:1]
+							} else {
+								succs = b.Succs[1:]
+							}
+						}
+					}
+					for _, sc := range succs {
+						if !slice[sc] || seen[sc] || heads[sc] {
+							continue
+						}
+						empty := false
+						for _, cv := range counters {
+							if bd := fa.boundsFrom(selfCond(b, sc), fa.Lin(cv)); bd.HasHi && bd.Hi <= 0 {
+								empty = true
+							}
+						}
+						if empty {
+							continue
+						}
+						seen[sc] = true
+						st = append(st, sc)
+					}
+				}
+				if len(miss) == 0 {
+					rfacts = append(rfacts, fmt.Sprintf("no return of the specialisation is reachable without passing the head of the loop over the parts (%d loop heads)", len(heads)))
 				}
 			}
 		}
